@@ -31,7 +31,7 @@ pub fn plan(prop: &str) -> Vec<PlanEntry> {
         "C10" => vec![p("rc-bulk", 1)],
         "C12" => vec![p("agesweep", 2), p("rc-mixed", 1), p("dir-t6", 1)],
         "C13" => vec![p("ebr", 3), p("ebr-churn", 2), p("ebr-longcs", 3), p("ebr-private", 1), p("rc-mixed", 1)],
-        "C14" => vec![p("ebr", 2), p("ebr-churn", 3), p("ebr-longcs", 2), p("rc-mixed", 1), p("rc-bulk", 1), p("dir-t6", 1)],
+        "C14" => vec![p("ebr", 2), p("ebr-churn", 3), p("ebr-longcs", 2), p("guards", 1), p("rc-mixed", 1), p("rc-bulk", 1), p("dir-t6", 1)],
         "C15" => vec![p("ebr", 3), p("ebr-churn", 2), p("ebr-private", 2), p("tls", 1)],
         "C16" => vec![p("guards", 4), p("ebr", 1), p("ebr-longcs", 2), p("rc-mixed", 1), p("dir-t6", 1)],
         "C17" => vec![p("queue", 1)],
